@@ -93,7 +93,7 @@ fn fnv64(s: &str) -> u64 {
 }
 /// Coq cases per (operation, generator family): every modelled function is represented by every family
 fn coq_cap(op: u32, cat: u8, th: bool) -> usize {
-    let per_op = match op { 1 => 270, 2 => 380, 3 => 180, 4 => 240, 5 => 200, 6 => 270, 7 => 50, 8 => 120, 9 => 40, 10 => 140, 11 => 60, 12 => 120, _ => 40 };
+    let per_op = match op { 1 => 270, 2 => 380, 3 => 180, 4 => 240, 5 => 200, 6 => 270, 7 => 50, 8 => 100, 9 => 40, 10 => 110, 11 => 60, 12 => 70, 13 => 40, _ => 40 };
     let pct = match cat { 0 => 15, 1 => 30, 2 => 15, 3 => 40, _ => 100 };
     (if th { 4 } else { 1 }) * per_op * pct / 100
 }
@@ -446,6 +446,11 @@ fn case_adaptive(cx: &mut Cx, data: &[u8]) {
     cx.dist(&format!("adaptive_{}_{}", alg, var));
     if alg != "huffman" { return; } // the rANS / FSE paths belong to the other half
     let r = guarded(|| { let mut e = AdaptiveParallelEncoder::new()?; e.encode_adaptive(data) }).map(es);
+    if let Ok(rr) = &r {
+        let streams = match var.as_str() { "x2" => 2, "x4" => 4, _ => 8 };
+        let d = match rr { Ok(b) => guarded(|| { let d = HuffmanDecoder::new(HuffmanTree::from_data(data)?); d.decode(b, data.len()) }).map(es).ok(), Err(_) => None };
+        x::adaptive_case(cx, streams, data, rr, d.as_ref());
+    }
     judge(cx, "parallel/adaptive", &cj, data, r, &mut |b, n| guarded(|| {
         let d = HuffmanDecoder::new(HuffmanTree::from_data(data)?);
         d.decode(b, n)
@@ -786,7 +791,8 @@ pub fn run_cells(sum: &mut Summary, shards: &mut CoqShards, rng: &mut Rng, args:
     // cells without a mechanism model of their own (the wrappers, the serialised forms, the SIMD bit buffer)
     sum.cell_status("huffman/order0/serialized_tree", "M+S");
     for v in ["x2", "x4", "x8"] { sum.cell_status(&format!("parallel/{}/history", v), "M+S"); }
-    for c in ["simd/avx2bmi2", "simd/avx2", "simd/sse42bmi2", "simd/sse42", "simd/bmi2", "simd/scalar", "parallel/adaptive", "bit_ops/varlen"] {
+    sum.cell_status("parallel/adaptive", "M+S");
+    for c in ["simd/avx2bmi2", "simd/avx2", "simd/sse42bmi2", "simd/sse42", "simd/bmi2", "simd/scalar", "bit_ops/varlen"] {
         sum.cell_status(c, "S-only");
     }
     for v in ["x2", "x4", "x8"] { for c in ["default", "low_latency", "high_throughput", "always_parallel"] { for a in ["", "/auto_train"] {
@@ -885,10 +891,8 @@ pub fn run_cells(sum: &mut Summary, shards: &mut CoqShards, rng: &mut Rng, args:
     jobs.push((Box::new(move |cx: &mut Cx, rng: &mut Rng| {
         let mut ts: Vec<Vec<u8>> = vec![vec![], vec![7], vec![7, 7], vec![0, 255], vec![1, 2, 3], vec![9, 9, 9], TEXT.to_vec()];
         ts.push((0..=255u8).chain(0..=255u8).collect());
-        ts.push(rng.bytes(1500));
-        ts.push(rng.bytes(1100));
-        { let al = alphabet(rng, 40); ts.push(payload(rng, 1, 3000, &al)); }
-        { let al = alphabet(rng, 34); ts.push(payload(rng, 0, 2500, &al)); }
+        ts.push(rng.bytes(1300));
+        { let al = alphabet(rng, 40); ts.push(payload(rng, 1, 2000, &al)); }
         { let al = alphabet(rng, 33); ts.push(payload(rng, 0, 1030, &al)); }
         cx.force_new = true;
         for t in ts.iter() {
